@@ -29,6 +29,7 @@ from .paths import U
 
 SRC = 'SRC'
 URI = 'URI'      # additionally: the value was read from (or computed from) a URI-valued field
+NOSCHEME = 'NOSCHEME'   # additionally: a constant-length prefix was sliced off (`uri[7:]`): the `scheme://` the masking regexes anchor on is gone, a sanitizer can no longer mask this value
 EMPTY = frozenset()
 
 SANITIZERS = {'hide_uri_users_and_pwds', 'hide_uri_pwds'}
@@ -608,7 +609,7 @@ class _Analysis:
 
     def _concrete(self, labels):
         """labels with parameter placeholders dropped unless seeded (used for class attribute table)"""
-        return frozenset(l for l in labels if l in (SRC, URI))
+        return frozenset(l for l in labels if l in (SRC, URI, NOSCHEME))
 
     # ............................................................................................. expressions
 
@@ -753,6 +754,9 @@ class _Analysis:
             return EMPTY
         if bl and SRC in bl and isinstance(node.slice, ast.Constant) and node.slice.value in self.eng.uri_fields:
             return bl | frozenset([URI])
+        if bl and SRC in bl and isinstance(node.slice, ast.Slice) and isinstance(node.slice.lower, ast.Constant) and isinstance(node.slice.lower.value, int) and node.slice.lower.value >= 3 \
+                and node.slice.upper is None:
+            return bl | frozenset([NOSCHEME])
         return bl
 
     def ev_Dict(self, node, env):
@@ -807,6 +811,8 @@ class _Analysis:
         fname = f.id if isinstance(f, ast.Name) else f.attr if isinstance(f, ast.Attribute) else ''
         # sanitizers
         if fname in SANITIZERS:
+            if NOSCHEME in allargs and SRC in allargs:
+                return allargs      # masking a URI whose scheme was already cut off is a no-op: still tainted
             return EMPTY
         # sinks
         self._check_sink(node, fname, f, args, kwargs, env)
@@ -904,7 +910,7 @@ class _Analysis:
     def _subst(self, labels, bound):
         out = set()
         for l in labels:
-            if l in (SRC, URI):
+            if l in (SRC, URI, NOSCHEME):
                 out.add(l)
             elif isinstance(l, tuple) and l[0] == 'P':
                 out |= bound.get(l[1], EMPTY)
